@@ -29,7 +29,7 @@ def generate(ctx):
     cases = []
     for i in range(n):
         left = "cfg" if i % 2 == 0 else "pda"
-        kind = rng.choice(["regex", "dfa", "nfa", "enfa", "enfa", "other"]) if rng.random() < 0.97 else "other"
+        kind = rng.choice(["regex", "dfa", "nfa", "nfa", "enfa", "enfa", "other"]) if rng.random() < 0.97 else "other"
         c = {"op": left + "_inter", "rkind": kind, "maxlen": 3 if ctx.tier == "quick" else 4, "operator": rng.random() < 0.3}
         if left == "cfg":
             c["g"] = cfglib.rand_cfg(rng, max_vars=3, max_prods=5, max_body=3)
@@ -42,7 +42,10 @@ def generate(ctx):
         if kind == "regex":
             c["regex"] = rng.choice(REGEXES)
         elif kind != "other":
-            fa = falib.rand_fa(rng, kind=kind, names="plain", max_states=3, max_syms=2)
+            fa = falib.rand_fa(rng, kind=kind, names="plain", max_states=3, max_syms=2,
+                               profile="multi" if (kind != "dfa" and rng.random() < 0.5) else None)
+            if kind != "dfa" and rng.random() < 0.35 and len(fa["states"]) >= 2:
+                fa = dict(fa, starts=fa["states"][:2])
             if rng.random() < 0.3 and kind != "dfa":      # deterministic-shaped non-DFA
                 fa2 = falib.rand_fa(rng, kind="dfa", names="plain", max_states=3, max_syms=2)
                 fa = dict(fa2, kind=kind)
